@@ -36,6 +36,7 @@ CONSTANTS Elements, AtomTypes, AtomGeoms, BondTypes,   \* vocabularies, read fro
           MaxAtoms, MaxBonds, MaxConfs,
           MaxEdits,         \* edits of the built object (each followed by a new write/read cycle of the SAME object)
           EditBonds,        \* bond types an existing bond may be re-typed to
+          AliasPick,        \* alias modes the model picks from (subset of AliasModes)
           EditPhases,       \* phases in which the model edits (the contract allows any phase >= 2: after a write)
           Deviations        \* named wrong behaviours of the model (non-vacuity; list of realistic bugs)
 
@@ -62,7 +63,9 @@ MaxI(a, b) == IF a >= b THEN a ELSE b
 Nothing   == [out |-> "none", blocks |-> <<>>]
 Raised    == [out |-> "raise", blocks |-> <<>>]
 NoObj     == [kind |-> "none", blocks |-> <<>>]
-NoRec     == [kind |-> "none", name |-> "", atoms |-> <<>>, bonds |-> <<>>, nconf |-> 0, na |-> 0, nb |-> 0, nc |-> 0]
+NoAlias   == [mode |-> "none", atoms |-> <<>>]
+NoRec     == [kind |-> "none", name |-> "", atoms |-> <<>>, bonds |-> <<>>, nconf |-> 0, na |-> 0, nb |-> 0, nc |-> 0,
+              alias |-> NoAlias]
 
 (* ------------------------------------------------------------------------- *)
 (* Typing tables (model of Atom.get_mol2_type / set_mol2_type, bond.py)       *)
@@ -154,7 +157,8 @@ ObjOf(r) == [kind |-> r.kind, blocks |-> [c \in 1..r.nconf |-> BlockOf(r, c)]]
 (* New fixes the target sizes, so that a random walk (TLC -simulate) yields objects of every size *)
 New(k, n, na, nb, nc) ==
   /\ phase = 0 /\ rec.kind = "none"
-  /\ rec' = [kind |-> k, name |-> n, atoms |-> <<>>, bonds |-> <<>>, nconf |-> 1, na |-> na, nb |-> nb, nc |-> nc]
+  /\ rec' = [kind |-> k, name |-> n, atoms |-> <<>>, bonds |-> <<>>, nconf |-> 1, na |-> na, nb |-> nb, nc |-> nc,
+             alias |-> NoAlias]
   /\ UNCHANGED <<pend, edits, phase, obj, text, back, text2, back2>> /\ last' = [act |-> "new"]
 CanAddAtom == phase = 0 /\ rec.kind # "none" /\ Len(rec.atoms) < rec.na
 AddAtom(p) == /\ CanAddAtom
@@ -185,9 +189,12 @@ DoRead(b)   == phase = 2 /\ phase' = 3 /\ back' = b  /\ UNCHANGED <<pend, edits,
 DoWrite2(t) == phase = 3 /\ phase' = 4 /\ text2' = t /\ UNCHANGED <<pend, edits, rec, obj, text, back, back2>>   /\ last' = [act |-> "write2"]
 DoRead2(b)  == phase = 4 /\ phase' = 5 /\ back2' = b /\ UNCHANGED <<pend, edits, rec, obj, text, back, text2>>   /\ last' = [act |-> "read2"]
 
-(* An edit of the built object through its public attributes, after it has been written at least once; the SAME  *)
-(* object then goes through Write/Read again and the whole contract applies to the edited object.               *)
-DoEdit(o) == /\ phase >= 2 \/ (phase = 1 /\ edits > 0)
+(* An edit of the built object through its public attributes (typically after it has been written once); the SAME *)
+(* object then goes through Write/Read again and the whole contract applies to the edited object.  An ALIAS is   *)
+(* the edit that changes nothing: some of the object's atoms are also put, without copying, into another        *)
+(* container (kept alive, or dropped again) or looked at through a view; the object is the same object and its   *)
+(* text must still denote it, whatever parent / index bookkeeping the atoms now carry.                           *)
+DoEdit(o) == /\ phase >= 1
              /\ phase' = 1 /\ obj' = o /\ edits' = edits + 1
              /\ UNCHANGED <<pend, rec, text, back, text2, back2>> /\ last' = [act |-> "edit"]
 (* model: an edit is picked (PickEdit: bond re-typed / atom re-typed and re-labelled / atom moved / renamed) and     *)
@@ -202,11 +209,16 @@ RetypeAtom(i, p)  == EditTo([rec EXCEPT !.atoms[i] = [p EXCEPT !.xi = rec.atoms[
                             [op |-> "atom", i |-> i, el |-> p.el, at |-> p.at, g |-> p.g, lab |-> p.lab])   \* element, atype, geom, label
 MoveAtom(i)       == EditTo([rec EXCEPT !.atoms[i].xi = @ + 1, !.atoms[i].qi = @ + 1], [op |-> "move", i |-> i])  \* coords, charges
 Rename(n)         == EditTo([rec EXCEPT !.name = n], [op |-> "name", n |-> n])
+AliasModes == {"promol", "struct", "dropped", "view"}   \* Promolecule / Structure of the atoms (re-parenting them), the same
+                                                        \* dropped again (parent gone), Substructure or Conformer view
+AtomSeqs(n) == {q \in UNION {[1..k -> 1..n] : k \in 1..n} : \A i, j \in DOMAIN q : i # j => q[i] # q[j]}
+AliasAtoms(m, q)  == EditTo([rec EXCEPT !.alias = [mode |-> m, atoms |-> q]], [op |-> "alias", mode |-> m, atoms |-> q])
 PickEdit == /\ CanEdit
             /\ \/ \E i \in 1..Len(rec.bonds), bt \in EditBonds : RetypeBond(i, bt)
                \/ \E i \in 1..Len(rec.atoms), p \in AtomPool : RetypeAtom(i, p)
                \/ \E i \in 1..Len(rec.atoms) : MoveAtom(i)
                \/ \E n \in Names : Rename(n)
+               \/ \E m \in AliasPick, q \in AtomSeqs(Len(rec.atoms)) : AliasAtoms(m, q)
 ApplyEdit == /\ pend # NoPend
              /\ rec' = pend.r /\ obj' = ObjOf(pend.r) /\ phase' = 1 /\ edits' = edits + 1 /\ pend' = NoPend
              /\ UNCHANGED <<text, back, text2, back2>> /\ last' = [act |-> "edit", op |-> pend.d]
@@ -224,7 +236,16 @@ WLabel(a) == IF a.lab = "" THEN a.el
 (* tokens per atom / bond object re-emits them after an edit (deviations StaleBondTokenCache, StaleAtomTokenCache)   *)
 NoTextBlock == [name |-> "", atoms |-> <<>>, bonds |-> <<>>]
 OldBlock(old, c) == IF old.out = "ok" /\ c <= Len(old.blocks) THEN old.blocks[c] ELSE NoTextBlock
-WBlock(b, old) ==
+(* deviation EndpointsViaParentIndex: bond endpoints are taken from atom.idx, i.e. from the position of the atom in *)
+(* the container that adopted it last (al = the alias in force), not from its position in the object being written *)
+InSeq(q, i)  == \E k \in DOMAIN q : q[k] = i
+PosIn(q, i)  == CHOOSE k \in DOMAIN q : q[k] = i
+Foreign(al)  == "EndpointsViaParentIndex" \in Deviations /\ al.mode \in {"promol", "struct", "dropped"}
+IdxOf(al, i) == IF Foreign(al) /\ InSeq(al.atoms, i) THEN PosIn(al.atoms, i) ELSE i
+IdxRaises(al, blocks) == /\ Foreign(al) /\ al.mode = "dropped"                   \* idx is None -> TypeError
+                         /\ \E c \in 1..Len(blocks) : \E i \in 1..Len(blocks[c].bonds) :
+                               InSeq(al.atoms, blocks[c].bonds[i].a) \/ InSeq(al.atoms, blocks[c].bonds[i].b)
+WBlock(b, old, al) ==
   [name  |-> b.name,
    atoms |-> [i \in 1..Len(b.atoms) |->
                 [lab |-> WLabel(b.atoms[i]),
@@ -233,12 +254,13 @@ WBlock(b, old) ==
                          ELSE EmitAtom(b.atoms[i]),
                  q   |-> IF Len(b.q) = 0 \/ "ChargeColumnDropped" \in Deviations THEN 0 ELSE RoundTo(b.q[i], 100)]],
    bonds |-> [i \in 1..Len(b.bonds) |->
-                [a |-> b.bonds[i].a, b |-> b.bonds[i].b,
+                [a |-> IdxOf(al, b.bonds[i].a), b |-> IdxOf(al, b.bonds[i].b),
                  tok |-> IF "StaleBondTokenCache" \in Deviations /\ i <= Len(old.bonds) THEN old.bonds[i].tok
                          ELSE EmitBond(b.bonds[i].bt)]]]
-WriteModel(kind, blocks, old) ==
+WriteModel(kind, blocks, old, al) ==
   IF kind = "Struct" /\ "StructDumpsRecursion" \in Deviations THEN Raised      \* as found: dumps_mol2 calls itself
-  ELSE [out |-> "ok", blocks |-> [c \in 1..Len(blocks) |-> WBlock(blocks[c], OldBlock(old, c))]]
+  ELSE IF IdxRaises(al, blocks) THEN Raised
+  ELSE [out |-> "ok", blocks |-> [c \in 1..Len(blocks) |-> WBlock(blocks[c], OldBlock(old, c), al)]]
 
 (* ----- reference model of read_mol2 + yield_from_mol2 ----------------------- *)
 TokensAccepted(t) ==
@@ -261,9 +283,9 @@ ReadModel(kind, t) ==
            src(c) == IF kind = "Ens" /\ "ConformerOrderLost" \in Deviations THEN n + 1 - c ELSE c
        IN [out |-> "ok", blocks |-> [c \in 1..n |-> RBlock(kind, t.blocks[src(c)])]]
 
-Write  == pend = NoPend /\ DoWrite(WriteModel(obj.kind, obj.blocks, text))          \* `text` = previous text of this object, if any
+Write  == pend = NoPend /\ DoWrite(WriteModel(obj.kind, obj.blocks, text, rec.alias))          \* `text` = previous text of this object, if any
 Read   == pend = NoPend /\ DoRead(ReadModel(obj.kind, text))
-Write2 == pend = NoPend /\ DoWrite2(IF back.out = "ok" THEN WriteModel(obj.kind, back.blocks, Nothing) ELSE Raised)   \* a new object
+Write2 == pend = NoPend /\ DoWrite2(IF back.out = "ok" THEN WriteModel(obj.kind, back.blocks, Nothing, NoAlias) ELSE Raised)   \* a new object
 Read2  == pend = NoPend /\ DoRead2(ReadModel(obj.kind, text2))
 
 Init == /\ edits = 0 /\ pend = NoPend /\ rec = NoRec /\ phase = 0 /\ obj = NoObj /\ text = Nothing /\ back = Nothing /\ text2 = Nothing /\ back2 = Nothing
